@@ -289,7 +289,9 @@ func (r *remoteReplicator) Replica(idx int64, msg []byte) {
 		r.SetAckIndex(resp.AckIndex)
 		r.statistics.AckSequence.Incr()
 	} else {
-		// TODO: need reset ack sequence?
+		// follower's append index doesn't match the replica index(e.g. follower lost its log after handshake),
+		// need do handshake again, otherwise all following messages are rejected by follower too.
+		r.state.Store(&state{state: models.ReplicatorFailureState, errMsg: "replica index doesn't match follower's append index"})
 		r.statistics.InvalidAckSequence.Incr()
 	}
 }
